@@ -35,6 +35,11 @@ type Span struct {
 	Path  string `json:"p,omitempty"`
 	// Min is the minimum wire size of one element for SCount spans (budget computations).
 	Min int `json:"m,omitempty"`
+	// Fixed is the wire size of one element / entry for SCount spans when every element has
+	// the same size and a collection of 2^24 distinct ones exists (map keys of 4 bytes and
+	// more), 0 otherwise; N is the count written.
+	Fixed int `json:"f,omitempty"`
+	N     int `json:"n,omitempty"`
 }
 
 type enc struct {
@@ -70,6 +75,66 @@ func EncodeSpans(s *schema.Schema, t schema.Type, v val.Value) ([]byte, []Span) 
 	return e.buf, e.spans
 }
 
+// GiantPrefix rewrites enc (a valid encoding with offset map spans) into the first bytes of
+// the valid encoding in which the which-th eligible count is n: the count itself and every
+// body length that covers it are patched. It returns the patched copy, cut off behind the last element
+// that is present, and the span of the count; ok is false when there is no such
+// count or a length would leave 31 bits.
+func GiantPrefix(enc []byte, spans []Span, which, n int) (out []byte, count *Span, ok bool) {
+	var cs *Span
+	k := 0
+	for i := range spans {
+		sp := &spans[i]
+		if sp.Kind == SCount && sp.Fixed > 0 && sp.N >= 1 {
+			if k == which {
+				cs = sp
+				break
+			}
+			k++
+		}
+	}
+	if cs == nil || n <= cs.N {
+		return nil, nil, false
+	}
+	delta := int64(n-cs.N) * int64(cs.Fixed)
+	if delta+int64(len(enc)) >= 1<<31 {
+		return nil, nil, false
+	}
+	out = append([]byte(nil), enc...)
+	put := func(at int, v uint32) {
+		out[at], out[at+1], out[at+2], out[at+3] = byte(v), byte(v>>8), byte(v>>16), byte(v>>24)
+	}
+	get := func(at int) uint32 {
+		return uint32(enc[at]) | uint32(enc[at+1])<<8 | uint32(enc[at+2])<<16 | uint32(enc[at+3])<<24
+	}
+	for _, sp := range spans {
+		if sp.Kind != SBodyLen && sp.Kind != SUnionLen {
+			continue
+		}
+		l := int(get(sp.Start))
+		from := sp.End
+		if sp.Kind == SUnionLen {
+			from = sp.End + 1 // the length of a union excludes its discriminator byte
+		}
+		if sp.Start < cs.Start && cs.Start < from+l {
+			put(sp.Start, uint32(int64(l)+delta))
+		}
+	}
+	put(cs.Start, uint32(n))
+	return out[:cs.End+cs.N*cs.Fixed], cs, true
+}
+
+// EligibleGiants counts the counts GiantPrefix can inflate.
+func EligibleGiants(spans []Span) int {
+	k := 0
+	for _, sp := range spans {
+		if sp.Kind == SCount && sp.Fixed > 0 && sp.N >= 1 {
+			k++
+		}
+	}
+	return k
+}
+
 var guidPerm = [16]int{3, 2, 1, 0, 5, 4, 7, 6, 8, 9, 10, 11, 12, 13, 14, 15}
 
 func (e *enc) typ(t schema.Type, v val.Value, path string) {
@@ -78,7 +143,7 @@ func (e *enc) typ(t schema.Type, v val.Value, path string) {
 		st := len(e.buf)
 		e.u(uint64(len(v.Elems)), 4)
 		if e.track {
-			e.spans = append(e.spans, Span{Start: st, End: len(e.buf), Kind: SCount, Path: path, Min: e.s.MinWire(*t.Array)})
+			e.spans = append(e.spans, Span{Start: st, End: len(e.buf), Kind: SCount, Path: path, Min: e.s.MinWire(*t.Array), Fixed: e.s.FixedWire(*t.Array), N: len(v.Elems)})
 		}
 		if t.Array.Prim == "byte" || t.Array.Prim == "uint8" {
 			st = len(e.buf)
@@ -97,8 +162,12 @@ func (e *enc) typ(t schema.Type, v val.Value, path string) {
 		st := len(e.buf)
 		e.u(uint64(len(v.Keys)), 4)
 		if e.track {
+			fx := 0
+			if ks, vs := e.s.FixedWire(schema.Type{Prim: t.MapK}), e.s.FixedWire(*t.MapV); ks >= 4 && vs > 0 {
+				fx = ks + vs
+			}
 			e.spans = append(e.spans, Span{Start: st, End: len(e.buf), Kind: SCount, Path: path,
-				Min: e.s.MinWire(schema.Type{Prim: t.MapK}) + e.s.MinWire(*t.MapV)})
+				Min: e.s.MinWire(schema.Type{Prim: t.MapK}) + e.s.MinWire(*t.MapV), Fixed: fx, N: len(v.Keys)})
 		}
 		for i := range v.Keys {
 			e.typ(schema.Type{Prim: t.MapK}, v.Keys[i], fmt.Sprintf("%s{k%d}", path, i))
